@@ -43,11 +43,21 @@ def raise_injected(model, what):
     elif name == "ModelCompleteError":
         from ECAgent.Core import ModelCompleteError
         raise ModelCompleteError()
+    if name == "TwoArgError":
+        raise TwoArgError("agent-7", what)
     raise FAIL_EXC.get(name, BatchFailure)(what)
 
 
 def fail_exc():
     return FAIL_EXC.get((CONFIG.get("fail") or {}).get("exc", "BatchFailure"), BatchFailure)
+
+
+class TwoArgError(Exception):
+    """A user exception whose constructor signature differs from Exception.args: pickle cannot rebuild it."""
+
+    def __init__(self, agent_id, reason):
+        self.agent_id, self.reason = agent_id, reason
+        super().__init__(f"{agent_id}: {reason}")
 
 
 class Runaway(Exception):
